@@ -81,6 +81,25 @@ Theorem C15_interp_only_chord_symbol_error : forall s, sym_lexable s = true ->
 Proof. exact interp_only_chord_symbol_error. Qed.
 Print Assumptions C15_interp_only_chord_symbol_error.
 
+(** The model of the code AS FOUND in /repo ([name_pitches_v false false]: _SCALE_DEGREES
+    indexed by the absolute bass, added sevenths spelled absolutely) violates the round
+    trip, and so does each single repair alone; with both repairs it is [name_pitches]. *)
+Theorem C15_as_found_refuted : ~ roundtrip_holds (name_pitches_v false false).
+Proof. exact as_found_refuted. Qed.
+Print Assumptions C15_as_found_refuted.
+
+Theorem C15_fix1_only_refuted : ~ roundtrip_holds (name_pitches_v true false).
+Proof. exact fix1_only_refuted. Qed.
+Print Assumptions C15_fix1_only_refuted.
+
+Theorem C15_fix2_only_refuted : ~ roundtrip_holds (name_pitches_v false true).
+Proof. exact fix2_only_refuted. Qed.
+Print Assumptions C15_fix2_only_refuted.
+
+Theorem C15_both_fixes_hold : roundtrip_holds (name_pitches_v true true).
+Proof. exact fixed_holds. Qed.
+Print Assumptions C15_both_fixes_hold.
+
 (** Non-vacuity and documented behaviour. *)
 Example C15_nonvacuous_c_major :
   option_map render (match name_pitches [60; 64; 67] with Ok f => Some f | Err _ => None end) = Some [67].
